@@ -497,7 +497,8 @@ class Repo:
             from .inline import expand as _expand
             trees = {n: m.tree for n, m in self.modules.items()}
             self.expanded = _expand(trees, keep=self._role_keep(trees),
-                                    anchored_owner=lambda nm, cls: cls in ANCHORED_OWNERS.get(nm, ()))
+                                    anchored_owner=lambda nm, cls: cls in ANCHORED_OWNERS.get(nm, ()),
+                                    resolve=self._call_class_resolver())
             for m in self.modules.values():
                 m.tree = normalise(m.tree)
                 m.build()
@@ -508,6 +509,31 @@ class Repo:
                 with open(p, 'rb') as fh:
                     raw = fh.read()
                 self.docs[rel] = (raw.decode('utf-8'), hashlib.sha256(raw).hexdigest())
+
+    def _call_class_resolver(self):
+        """call node -> name of the class whose method it calls (receiver types of the package as written), or None."""
+        try:
+            from .resolve import Resolver
+            R = Resolver(self)
+            owner = {}
+            for f in self.all_funcs():
+                for n in own_nodes(f.node):
+                    if isinstance(n, ast.Call):
+                        owner[id(n)] = f
+        except Exception:
+            return None
+
+        def resolve(call):
+            f = owner.get(id(call))
+            if f is None:
+                return None
+            try:
+                tg = [t for k, t in R.resolve_call(call, f) if k == 'repo']
+            except Exception:
+                return None
+            cls = {t.cls.name for t in tg if t.cls is not None}
+            return next(iter(cls)) if len(cls) == 1 and len(tg) == len([t for t in tg if t.cls is not None]) else None
+        return resolve
 
     @staticmethod
     def _role_keep(trees):
